@@ -520,7 +520,7 @@ pub fn run(ctx: &Ctx) -> EvidenceMeta {
         "mutated-builder-output",
         ctx.n(40_000, 1_500_000),
         || {
-            (gen::msg_spec(gen::seal_strategy(false, false), 5, 0), gen::byte_mutations(3))
+            (gen::msg_spec(gen::seal_strategy(false, false), 5, 1), gen::byte_mutations(3))
                 .prop_map(|(spec, muts)| Case::Mutated { spec, muts })
         },
         test,
